@@ -14,7 +14,11 @@
 //! datum in the witness set) `dropaux` `auxflip` (auxiliary data), `maxex=<mem>:<steps>` `costmut=<k>` (one number of the cost
 //! model of language k changed: only the script-integrity hash notices) `incoin=<i>:<n>` (lovelace of the UTxO entry of input i).
 //! Synth body options also: `mint` (5 tokens minted under a native-script policy, script and signature supplied) and
-//! `mintnoscript` (the same without the policy script).
+//! `mintnoscript` (the same without the policy script), `req` / `reqnosig` (Alonzo+: a required signer with / without its key witness).
+//! `colpaid=<pct>:<paid>` (collateral percentage and the coin of collateral input 0 set so that the paid collateral is exactly <paid>).
+//! More mutators: `redmut` (mem + 1 in the first redeemer's execution units: only the script-integrity hash notices), `indatum=<i>` (an inline
+//! datum on the UTxO entry of key-locked input i) and `refbyron=<i>` (reference input i's UTxO entry re-addressed to a Byron address): only
+//! the language rule notices.
 //! `V` = what each `check_*` of the era answers on its own (hook `rule_verdicts`, validator order); `F` = the plain
 //! observations the Lean predicates are stated over (`Model/Rules.lean: View`). Both are produced by the generator for the
 //! Lean side; `run_case` recomputes them. `F` also carries the script observations (hashes of witness-set and reference
@@ -68,10 +72,12 @@ fn build_synth(spec: &[&str]) -> Option<Fixture> {
     let start: Option<u64> = opt("start").and_then(|v| v.parse().ok());
     let netid: Option<u8> = opt("netid").and_then(|v| v.parse().ok());
     let minting = (opt("mint").is_some() || opt("mintnoscript").is_some()) && era != Era::Shelley;
+    let req = (opt("req").is_some() || opt("reqnosig").is_some()) && matches!(era, Era::Alonzo | Era::Babbage | Era::Conway);
+    let req_signed = req && opt("req").is_some();
     let policy = synth::policy_id(&synth::key(150));
     let outnet: u8 = opt("outnet").and_then(|v| v.parse().ok()).unwrap_or(network);
     let mut b = Encoder::new(Vec::new());
-    b.map(3 + ttl.is_some() as u64 + start.is_some() as u64 + netid.is_some() as u64 + aux_hash.is_some() as u64 + minting as u64).unwrap();
+    b.map(3 + ttl.is_some() as u64 + start.is_some() as u64 + netid.is_some() as u64 + aux_hash.is_some() as u64 + minting as u64 + req as u64).unwrap();
     b.u8(0).unwrap();
     if conway { b.tag(Tag::new(258)).unwrap(); }
     b.array(nin as u64).unwrap();
@@ -87,15 +93,17 @@ fn build_synth(spec: &[&str]) -> Option<Fixture> {
     if let Some(h) = &aux_hash { b.u8(7).unwrap().bytes(h).unwrap(); }
     if let Some(s) = start { b.u8(8).unwrap().u64(s).unwrap(); }
     if minting { b.u8(9).unwrap().map(1).unwrap().bytes(policy.as_ref()).unwrap().map(1).unwrap().bytes(&[0x54]).unwrap().u64(5).unwrap(); }
+    if req { b.u8(14).unwrap(); if conway { b.tag(Tag::new(258)).unwrap(); } b.array(1).unwrap().bytes(Hasher::<224>::hash(&synth::key(160).pk).as_ref()).unwrap(); }
     if let Some(n) = netid { b.u8(15).unwrap().u8(n).unwrap(); }
     let body = b.into_writer();
     let txid = Hasher::<256>::hash(&body);
     let mut w = Encoder::new(Vec::new());
     let with_script = opt("mint").is_some() && minting;
     if conway && nin == 0 && !minting { w.map(0).unwrap(); } else {
-        w.map(1 + with_script as u64).unwrap().u8(0).unwrap().array(nin as u64 + minting as u64).unwrap();
+        w.map(1 + with_script as u64).unwrap().u8(0).unwrap().array(nin as u64 + minting as u64 + req_signed as u64).unwrap();
         for i in 0..nin { let k = synth::key(100 + i as u8); w.array(2).unwrap().bytes(&k.pk).unwrap().bytes(k.sk.sign(txid.as_ref()).as_ref()).unwrap(); }
         if minting { let k = synth::key(150); w.array(2).unwrap().bytes(&k.pk).unwrap().bytes(k.sk.sign(txid.as_ref()).as_ref()).unwrap(); }
+        if req_signed { let k = synth::key(160); w.array(2).unwrap().bytes(&k.pk).unwrap().bytes(k.sk.sign(txid.as_ref()).as_ref()).unwrap(); }
         if with_script { w.u8(1).unwrap().array(1).unwrap(); w.writer_mut().extend_from_slice(&synth::native_script(&synth::key(150))); }
     }
     f.tx_cbor = txparts::assemble(&txparts::TxParts { body, wits: w.into_writer(), aux, valid: true });
@@ -168,6 +176,89 @@ fn append_to_field(raw: &mut Vec<u8>, key: u64, redeemer: bool) -> bool {
 }
 
 /// rewrite one UTxO entry: new address / coin / extra asset
+/// raw elements of a definite array / entries of a definite map (keys unsigned) at the top level of `raw`
+fn raw_items(raw: &[u8]) -> Option<(bool, Vec<(u64, Vec<u8>)>)> {
+    let mut d = Decoder::new(raw);
+    match d.datatype().ok()? {
+        minicbor::data::Type::Array => {
+            let n = d.array().ok()??;
+            let mut v = vec![];
+            for i in 0..n { let a = d.position(); d.skip().ok()?; v.push((i, raw[a..d.position()].to_vec())); }
+            Some((false, v))
+        }
+        minicbor::data::Type::Map => {
+            let n = d.map().ok()??;
+            let mut v = vec![];
+            for _ in 0..n { let k = d.u64().ok()?; let a = d.position(); d.skip().ok()?; v.push((k, raw[a..d.position()].to_vec())); }
+            Some((true, v))
+        }
+        _ => None,
+    }
+}
+
+/// a Byron address (bytes of `byron.successful_mainnet_tx`'s UTxO address)
+fn byron_address_bytes() -> Option<Vec<u8>> {
+    let f = fixtures::by_name("byron.successful_mainnet_tx")?;
+    let out: pallas_primitives::byron::TxOut = minicbor::decode(&f.utxo.first()?.cbor).ok()?;
+    minicbor::to_vec(&out.address).ok()
+}
+
+/// the UTxO entry in the post-Alonzo map form with its address replaced by a Byron one (`byron`) or an inline datum added
+fn edit_utxo_form(e: &mut UtxoEntry, byron: bool) -> bool {
+    if !matches!(e.era, Era::Babbage | Era::Conway) { return false; }
+    let Some((is_map, items)) = raw_items(&e.cbor) else { return false };
+    // legacy array `[address, value, ?datum_hash]` -> map `{0: address, 1: value}` (a datum hash would become a datum option: left alone)
+    let mut entries: Vec<(u64, Vec<u8>)> = if is_map { items } else { if items.len() != 2 { return false; } items };
+    if byron {
+        let Some(b) = byron_address_bytes() else { return false };
+        let mut enc = Encoder::new(Vec::new());
+        enc.bytes(&b).unwrap();
+        let Some(a) = entries.iter_mut().find(|x| x.0 == 0) else { return false };
+        a.1 = enc.into_writer();
+    } else {
+        if entries.iter().any(|x| x.0 == 2) { return false; }
+        // `[1, #6.24(h'd87980')]` = inline datum `Constr 0 []`
+        entries.push((2, vec![0x82, 0x01, 0xd8, 0x18, 0x43, 0xd8, 0x79, 0x80]));
+        entries.sort_by_key(|x| x.0);
+    }
+    let mut enc = Encoder::new(Vec::new());
+    enc.map(entries.len() as u64).unwrap();
+    let mut out = enc.into_writer();
+    for (k, v) in entries { let mut ke = Encoder::new(Vec::new()); ke.u64(k).unwrap(); out.extend(ke.into_writer()); out.extend(v); }
+    if MultiEraOutput::decode(e.era, &out).is_err() { return false; }
+    e.cbor = out;
+    true
+}
+
+/// `mem + 1` in the execution units of the first redeemer of the witness set (list form `[[tag, index, data, [mem, steps]], ..]`
+/// or map form `{[tag, index]: [data, [mem, steps]], ..}`): pointers, data and datums stay, only the script-integrity hash notices
+fn bump_first_redeemer(raw: &mut Vec<u8>) -> bool {
+    let mut d = Decoder::new(raw);
+    let Ok(Some(n)) = d.map() else { return false };
+    for _ in 0..n {
+        let Ok(k) = d.u64() else { return false };
+        if k != 5 { if d.skip().is_err() { return false; } continue; }
+        let step = |d: &mut Decoder| -> Option<()> {
+            match d.datatype().ok()? {
+                minicbor::data::Type::Array => { if d.array().ok()?.unwrap_or(1) == 0 { return None; } if d.array().ok()? != Some(4) { return None; } d.skip().ok()?; d.skip().ok()?; d.skip().ok()?; }
+                minicbor::data::Type::Map => { if d.map().ok()?.unwrap_or(1) == 0 { return None; } d.skip().ok()?; if d.array().ok()? != Some(2) { return None; } d.skip().ok()?; }
+                _ => return None,
+            }
+            if d.array().ok()? != Some(2) { return None; }
+            Some(())
+        };
+        if step(&mut d).is_none() { return false; }
+        let a = d.position();
+        let Ok(mem) = d.u64() else { return false };
+        let b = d.position();
+        let mut enc = Encoder::new(Vec::new());
+        enc.u64(mem.wrapping_add(1)).unwrap();
+        raw.splice(a..b, enc.into_writer());
+        return true;
+    }
+    false
+}
+
 fn edit_utxo(e: &mut UtxoEntry, script_addr: bool, coin: Option<u64>, add_asset: bool) -> bool {
     let Ok(o) = MultiEraOutput::decode(e.era, &e.cbor) else { return false };
     let Ok(Address::Shelley(sa)) = o.address() else { return false };
@@ -224,6 +315,36 @@ fn apply(f: &mut Fixture, m: &str) -> bool {
             let Some(r) = refs.get(i as usize).cloned() else { return false };
             let Some(e) = f.utxo.iter_mut().find(|u| u.input.show() == r) else { return false };
             edit_utxo(e, k == "colscript", if k == "colcoin" { n } else { None }, k == "colassets")
+        }
+        "refbyron" | "indatum" => {
+            let Some(i) = num(v) else { return false };
+            let refs = tx_inputs(f, if k == "refbyron" { "ref" } else { "in" });
+            let Some(r) = refs.get(i as usize).cloned() else { return false };
+            let Some(e) = f.utxo.iter_mut().find(|u| u.input.show() == r) else { return false };
+            // an inline datum on a script-locked input would also change what `check_datums` sees: key-locked inputs only
+            if k == "indatum" { match MultiEraOutput::decode(e.era, &e.cbor).ok().and_then(|o| o.address().ok()) { Some(Address::Shelley(sa)) if !sa.payment().is_script() => {} _ => return false } }
+            edit_utxo_form(e, k == "refbyron")
+        }
+        "redmut" => {
+            if f.era == Era::Byron { return false; }
+            let Some(mut parts) = txparts::split(f.era, &f.tx_cbor) else { return false };
+            if !bump_first_redeemer(&mut parts.wits) { return false; }
+            f.tx_cbor = txparts::assemble(&parts);
+            MultiEraTx::decode_for_era(f.era, &f.tx_cbor).is_ok()
+        }
+        "colpaid" => {
+            // collateral percentage <p> and the coin of collateral input 0 set so that the paid collateral (Babbage / Conway: the
+            // lovelace balance; Alonzo: that input's own coin) is exactly <target>
+            let Some((p, t)) = v.split_once(':') else { return false };
+            let (Some(p), Some(t)) = (num(p), num(t)) else { return false };
+            let Some(vw) = view(f) else { return false };
+            let Some(c0) = vw.col.as_ref().and_then(|c| c.first()).map(|c| c.coin) else { return false };
+            let coin0 = if f.era == Era::Alonzo { t } else { let Some(paid) = vw.paid else { return false }; let n = c0 as i128 + t as i128 - paid as i128; if n < 0 || n > u64::MAX as i128 { return false; } n as u64 };
+            match &mut f.env.prot_params { P::Alonzo(q) => q.collateral_percentage = p as u32, P::Babbage(q) => q.collateral_percentage = p as u32, P::Conway(q) => q.collateral_percentage = p as u32, _ => return false }
+            let refs = tx_inputs(f, "col");
+            let Some(r) = refs.first().cloned() else { return false };
+            let Some(e) = f.utxo.iter_mut().find(|u| u.input.show() == r) else { return false };
+            edit_utxo(e, false, Some(coin0), false)
         }
         "dropwit" => {
             let Some(key) = num(v) else { return false };
@@ -656,17 +777,35 @@ fn mutators_for(g: &mut Gen, b: &str) -> Vec<String> {
     let Some(v) = view(&f) else { return vec![] };
     let mut m = vec![];
     if f.era == Era::Byron { m.push(format!("maxsize={}", v.size.saturating_sub(1))); m.push(format!("maxsize={}", v.size)); m.push("dropin=0".into()); return m; }
-    if let Some(t) = v.ttl { m.push(format!("slot={}", t.saturating_add(1))); m.push(format!("slot={t}")); }
-    if let Some(s) = v.start { if s > 0 { m.push(format!("slot={}", s - 1)); } }
+    // every arithmetic threshold exactly on, one below and one above the boundary
+    if let Some(t) = v.ttl { m.push(format!("slot={}", t.saturating_add(1))); m.push(format!("slot={t}")); if t > 0 { m.push(format!("slot={}", t - 1)); } }
+    if let Some(s) = v.start { if s > 0 { m.push(format!("slot={}", s - 1)); } m.push(format!("slot={s}")); m.push(format!("slot={}", s.saturating_add(1))); }
     m.push(format!("envnet={}", 1 - v.envnet.min(1)));
     m.push(format!("maxsize={}", v.size.saturating_sub(1)));
     m.push(format!("maxsize={}", v.size));
-    m.push(format!("minfee={}:{}", v.a, (v.fee + 1).saturating_sub(v.a * v.size).min(u32::MAX as u64)));
+    m.push(format!("maxsize={}", v.size + 1));
+    // minimum fee = fee + 1 / fee / fee - 1 (b chosen for the transaction's a and size)
+    for d in [1i128, 0, -1] { let b = v.fee as i128 + d - (v.a * v.size) as i128; if b >= 0 && b <= u32::MAX as i128 { m.push(format!("minfee={}:{b}", v.a)); } }
     m.push(format!("coins={}", *g.rng.pick(&[1u64 << 31, 100_000_000, 20_000_000])));
-    if f.era != Era::Shelley && f.era != Era::Mary && f.era != Era::Allegra { m.push("maxval=0".into()); }
+    // minimum lovelace: the largest coins-per-byte (min_utxo_value) every output still meets, and one more
+    let post_alonzo = !matches!(f.era, Era::Shelley | Era::Allegra | Era::Mary);
+    let n0 = v.outs.iter().filter(|o| post_alonzo || !o.multi).map(|o| if !post_alonzo { o.lovelace } else { o.lovelace / (o.words + if f.era == Era::Alonzo { if o.datum_hash { 37 } else { 27 } } else { 160 }) }).min();
+    if let Some(n0) = n0 { m.push(format!("coins={n0}")); m.push(format!("coins={}", n0 + 1)); if n0 > 0 { m.push(format!("coins={}", n0 - 1)); } }
+    if post_alonzo {
+        m.push("maxval=0".into());
+        if let Some(w) = v.outs.iter().map(|o| o.words).max() { m.push(format!("maxval={w}")); m.push(format!("maxval={}", w + 1)); if w > 0 { m.push(format!("maxval={}", w - 1)); } }
+    }
     for i in 0..v.nin.min(2) { m.push(format!("dropin={i}")); }
     if let Some(c) = &v.col {
         m.push("maxcol=0".into());
+        m.push(format!("maxcol={}", c.len())); if c.len() > 1 { m.push(format!("maxcol={}", c.len() - 1)); }
+        // paid collateral = required, required - 1, required + 1 (required = ceil(fee * pct / 100)) for percentages with
+        // fee * pct mod 100 in {0, 1, 50, 99}
+        for r in [0u64, 1, 50, 99] {
+            let Some(p) = (101u64..=400).find(|p| (v.fee as u128 * *p as u128) % 100 == r as u128) else { continue };
+            let req = ((v.fee as u128 * p as u128 + 99) / 100) as u64;
+            for d in [0i64, -1, 1] { if let Some(t) = req.checked_add_signed(d) { m.push(format!("colpaid={p}:{t}")); } }
+        }
         m.push(format!("pct={}", *g.rng.pick(&[100_000u64, 4_000_000_000])));
         for i in 0..c.len().min(2) { m.push(format!("dropcol={i}")); m.push(format!("colscript={i}")); m.push(format!("colassets={i}")); m.push(format!("colcoin={i}:{}", c[i].coin.saturating_sub(1))); m.push(format!("colcoin={i}:1")); }
     }
@@ -674,7 +813,14 @@ fn mutators_for(g: &mut Gen, b: &str) -> Vec<String> {
     for k in [0u64, 1, 3, 4, 5, 6, 7] { m.push(format!("dropwit={k}")); }
     m.push("addred".into());
     m.push("adddatum".into());
-    if params::max_tx_ex_units(&f.env).is_some() { m.push("maxex=0:0".into()); m.push("maxex=1:18446744073709551615".into()); }
+    m.push("redmut".into());
+    if matches!(f.era, Era::Babbage | Era::Conway) { for i in 0..v.nin.min(2) { m.push(format!("indatum={i}")); } for i in 0..v.refs.len().min(2) { m.push(format!("refbyron={i}")); } }
+    if params::max_tx_ex_units(&f.env).is_some() {
+        m.push("maxex=0:0".into()); m.push("maxex=1:18446744073709551615".into());
+        let units = super::exunits::view(&f).units;
+        let (mem, steps) = units.iter().fold((0u64, 0u64), |a, u| (a.0.saturating_add(u.0), a.1.saturating_add(u.1)));
+        if !units.is_empty() && mem > 0 && steps > 0 { m.push(format!("maxex={mem}:{steps}")); m.push(format!("maxex={}:{steps}", mem - 1)); m.push(format!("maxex={mem}:{}", steps - 1)); }
+    }
     for i in 0..v.nin.min(2) { m.push(format!("incoin={i}:{}", 1_234_567 + i)); }
     if v.aux { m.push("dropaux".into()); m.push("auxflip".into()); }
     if f.era == Era::Conway { for k in 1..=3 { m.push(format!("nocost={k}")); m.push(format!("costmut={k}")); } }
@@ -693,7 +839,7 @@ fn generate_inner(g: &mut Gen) {
     let mut bases: Vec<String> = fixtures::all().iter().map(|f| format!("fx:{}", f.name)).collect();
     for era in ["shelley", "mary", "alonzo", "babbage", "conway"] {
         bases.push(format!("sy:{era}"));
-        for o in ["ins0", "nottl", "ttl=5", "start=999999999999", "netid=0", "netid=1", "outnet=0", "outcoin=100", "outcoin=999999", "auxhash", "aux", "auxbad", "mint", "mintnoscript"] { bases.push(format!("sy:{era}:{o}")); }
+        for o in ["ins0", "nottl", "ttl=5", "start=999999999999", "netid=0", "netid=1", "outnet=0", "outcoin=100", "outcoin=999999", "auxhash", "aux", "auxbad", "mint", "mintnoscript", "req", "reqnosig"] { bases.push(format!("sy:{era}:{o}")); }
     }
     // every base unmutated and with each of its single mutators (this part is exhaustive and seed-independent)
     let mut all_single: Vec<Vec<String>> = vec![];
@@ -725,7 +871,7 @@ fn aimed_rule(m: &str) -> Option<&'static str> {
     match k {
         "dropwit" => Some("witnesses-scripts-datums-redeemers"), "nocost" => Some("languages-or-script-integrity"),
         "addred" => Some("redeemer-coverage"), "adddatum" => Some("datum-witnesses"), "costmut" => Some("script-integrity-hash"),
-        "incoin" => Some("preservation"), _ => None,
+        "incoin" => Some("preservation"), "redmut" => Some("script-integrity-hash"), _ => None,
     }
 }
 
@@ -757,6 +903,18 @@ pub fn run_case(case: &Case, out: &mut Out) {
             for (r, e) in &vs { if e.is_err() { out.viol(format!("rule-fails-alone-but-accepted rule={r} era={era}"), format!("{scn}: check alone says {:?}", e)); } }
         } else if vs.iter().all(|(_, e)| e.is_ok()) {
             out.viol(format!("rejected-although-every-rule-passes era={era}"), scn.clone());
+        }
+        // required signers, stated independently: every required key hash has a key witness with a valid signature
+        if accepted && matches!(f.era, Era::Alonzo | Era::Babbage | Era::Conway) {
+            if let Some(reqs) = super::witness::required_signers(&f) {
+                let wits = super::witness::base_wits(&f).unwrap_or_default();
+                let id = super::witness::tx_id(&f);
+                for r in reqs {
+                    if !wits.iter().any(|(k, sg)| super::witness::key_hash(k) == r && super::witness::sig_ok(k, sg, &id)) {
+                        out.viol(format!("rule-not-enforced rule=required-signers era={era}"), format!("accepted although required signer {r} has no valid key witness: {scn}"));
+                    }
+                }
+            }
         }
         // a mutator that removed a needed part of the witness set / a needed cost model must not be harmless
         if accepted && effective.len() == 1 {
